@@ -47,8 +47,10 @@ def instances(tier, seed):
     for t, maxsize, vals in plan:
         for ks in key_sets(t, maxsize, vals):
             for ws in weight_patterns(len(ks)):
-                for form in ("int", "fraction", "float"):
+                for form in ("int", "fraction", "float", "tiny", "lopsided"):
                     if form != "int" and len(ks) == 1 and ws != (1,):
+                        continue
+                    if form in ("tiny", "lopsided") and (t > 1 or len(ks) != 2 or ws != (1, 1)):
                         continue
                     yield {"keys": [list(k) for k in ks], "weights": list(ws), "form": form, "t": t, "maxN": maxN}
                     if form == "int" and len(ks) >= 2 and len(set(ws)) > 1:
@@ -58,6 +60,10 @@ def instances(tier, seed):
 
 
 def weights_of(inst):
+    if inst["form"] == "tiny":
+        return [w * 1e-13 for w in inst["weights"]]
+    if inst["form"] == "lopsided":
+        return [1 - 1e-13] + [1e-13 / max(1, len(inst["weights"]) - 1)] * (len(inst["weights"]) - 1)
     ws = inst["weights"]
     tot = sum(ws)
     if inst["form"] == "int":
@@ -203,8 +209,46 @@ def run_one(res, keys, weights, sizes, N, inst_desc):
             return
 
 
+def check_inplace_change(res, inst):
+    """A short history on ONE loader: sample, change the distribution dict in place, sample again (N = 1): the second
+    draw must follow the distribution the loader holds at that time."""
+    from gcmpy.joint_degree.joint_degree_loaders.joint_degree_manual import JointDegreeManual
+    from gcmpy.names.joint_degree_names import JointDegreeNames as JN
+    keys = [tuple(k) for k in inst["keys"]]
+    t = inst["t"]
+    new_key = tuple([7] * t)
+    law = {}
+
+    def body():
+        obj = JointDegreeManual({JN.JDD: dict(zip(keys, [1] * len(keys))), JN.MOTIF_SIZES: [1] * t})
+        obj.sample_jds_from_jdd(1)
+        # same dict object and same number of keys: the last key is replaced by a new one, weights 1 : 0.. : 3
+        for k in list(obj.jdd):
+            obj.jdd[k] = 0 if k != keys[0] else 1
+        del obj.jdd[keys[-1]]
+        obj.jdd[new_key] = 3
+        return obj.sample_jds_from_jdd(1)
+
+    def on_leaf(leaf):
+        key = ("EXC", repr(leaf.exception)) if leaf.exception is not None else tuple(leaf.outcome[0])
+        law[key] = law.get(key, 0) + leaf.prob
+    st = engine.explore(body, on_leaf, max_points=20)
+    res.executions += st.leaves
+    res.transitions += st.points
+    want = {keys[0]: Fraction(1, 4), new_key: Fraction(3, 4)}
+    if law != want:
+        res.violation("C05:history:stale-distribution", f"keys={keys}: after the distribution was changed in place to "
+                      f"{{{keys[0]}: 1, {new_key}: 3, others: 0}} one draw has law "
+                      f"{({str(k): str(v) for k, v in law.items()})}", {k: inst[k] for k in ("keys", "t")})
+    res.flags.add("inplace-history")
+
+
 def run_instance(inst, tier):
     res = Result()
+    if inst["form"] == "int" and inst["weights"] == [1] * len(inst["keys"]) and len(inst["keys"]) >= 2:
+        check_inplace_change(res, inst)
+        if res.violations:
+            return res
     keys = [tuple(k) for k in inst["keys"]]
     weights = weights_of(inst)
     t = inst["t"]
